@@ -1,4 +1,5 @@
 import SplinkVerif.Lemmas.MultiThreshold
+import SplinkVerif.Generated.Arith
 /-!
 # C11 — multi-threshold clustering equals clustering at each threshold
 
@@ -63,6 +64,34 @@ theorem summary_stats (ge : α → α → Bool) (one : α) (n : Nat) (edges : Li
 /-- The statistics are what they say: total size is the number of records. -/
 theorem stats_total (cc : Clustering) : (stats cc).totalSize = cc.length :=
   Lemmas.MT.stats_total cc
+
+/-- **Every threshold given is used** — about the *translated* `threshold_args_to_match_prob_list`
+(`Generated/Arith.lean`, regenerated from `splink/internals/misc.py` on every run): a list of probabilities is
+only sorted, a list of match weights becomes the sorted list of `2^w/(1+2^w)` — same length, nothing dropped
+(boundary weights such as `0` included) — and giving both lists raises. -/
+theorem threshold_list_args_applied {β : Type} [ANum β] (ps ws : List β) :
+    Gen.threshold_args_to_match_prob_list (some ps) none = some (some (ANum.sorted ps)) ∧
+    Gen.threshold_args_to_match_prob_list none (some ws) =
+      some (some (ANum.sorted (ws.map fun w => ANum.div (ANum.pow2 w) (ANum.add (ANum.ofNat 1) (ANum.pow2 w))))) ∧
+    Gen.threshold_args_to_match_prob_list (some ps) (some ws) = none :=
+  ⟨rfl, rfl, rfl⟩
+
+/-- `sorted` keeps every element: the sorted threshold list is a permutation of the given one. -/
+theorem sorted_perm {β : Type} [ANum β] (xs : List β) : (ANum.sorted xs).Perm xs := by
+  have hins : ∀ (x : β) (l : List β), (ANum.insert x l).Perm (x :: l) := by
+    intro x l
+    induction l with
+    | nil => exact List.Perm.refl _
+    | cons y ys ih =>
+      unfold ANum.insert
+      split
+      · exact List.Perm.refl _
+      · exact ((List.Perm.cons y ih).trans (List.Perm.swap x y ys))
+  induction xs with
+  | nil => exact List.Perm.refl _
+  | cons x xs ih =>
+    show (ANum.insert x (ANum.sorted xs)).Perm (x :: xs)
+    exact (hins x _).trans (List.Perm.cons x ih)
 
 /-- Non-vacuity (integers as probabilities, `ge := (· ≥ ·)`): path 0–1–2–3 with
 strengths 9, 5, 9 at thresholds [7, 3, 10] (unsorted): one cluster at 3, two at
